@@ -25,18 +25,21 @@ ASSUMPTIONS = [
     'which coincides with equality on them); int attribute range checks are not exercised',
     'PostgreSQL is not executed in this sandbox: the session-side logic modelled here is provider independent, the row-level '
     'behaviour of `UPDATE ... WHERE` under READ COMMITTED (re-evaluation of the WHERE clause after a concurrent commit) is assumed',
-    'the for_update exemption (objects locked with get_for_update / select(...).for_update()) is checked on the real code by a direct test '
-    '(the UPDATE carries only the primary key while the session holds the write lock), it is not part of the schedule model',
+    'model Life (one session with several transactions, get_for_update, created object, other sessions\' commits inserted at every position): one object, '
+    'attributes without volatile; created objects get all attributes non-None; the other session is a raw connection that commits only while the provider\'s '
+    'write lock is free (it would block otherwise); select().for_update(), db_session(optimistic=False) and two flushes in one transaction are covered by the direct test c20_forupdate.py',
 ]
 RULE = ('exhaustive: every unordered pair of programs from a fixed pool of 17 short programs (read/write of plain, optimistic=False, '
         'float, float optimistic=True and volatile attributes, increments, read-own-write, NULL values) x every complete interleaving, '
-        'plus seeded triples of 2-operation programs x every interleaving; non-trivial = an UPDATE carried at least one optimistic '
+        'plus seeded triples of 2-operation programs x every interleaving; plus 11 multi-transaction session programs (explicit commit() in the middle, get_for_update, created object) x every other-session commit x every insertion position (pairs for two programs); non-trivial = an UPDATE carried at least one optimistic '
         'criterion or a session ended in OptimisticCheckError; distinct = distinct (initial row, programs, schedule)')
 
 K = 6          # attributes a b c f g v
 SCHEMA = ('[{| a_decl := None; a_conv := true; a_vol := false |}; {| a_decl := None; a_conv := true; a_vol := false |}; '
           '{| a_decl := Some false; a_conv := true; a_vol := false |}; {| a_decl := None; a_conv := false; a_vol := false |}; '
           '{| a_decl := Some true; a_conv := false; a_vol := false |}; {| a_decl := None; a_conv := true; a_vol := true |}]')
+LIFE_SCHEMA = ('[{| a_decl := None; a_conv := true; a_vol := false |}; {| a_decl := None; a_conv := true; a_vol := false |}; '
+               '{| a_decl := Some false; a_conv := true; a_vol := false |}]')
 PROTECTED = [True, True, False, False, True, False]     # declared: optimistic (own option, else converter default) and not volatile
 A, B, C_, F, G, V = range(6)
 
@@ -184,8 +187,8 @@ def coq_case(c, r):
     impl = '(%s, %s, %s)' % (clist(r['final'], cval), clist(r['status'], cstatus), clist(r['events'], cevent))
     return 'outcome_eqb (%s) %s' % (model, impl)
 
-HEADER = ('Require Import PonyV.Model.C20Opt.\nFrom Coq Require Import ZArith List Bool.\nImport ListNotations.\nOpen Scope nat_scope.\n'
-          'Definition SCH : list attr := %s.\n' % SCHEMA)
+HEADER = ('Require Import PonyV.Model.C20Opt PonyV.Model.C20Life.\nFrom Coq Require Import ZArith List Bool.\nImport ListNotations.\nOpen Scope nat_scope.\n'
+          'Definition SCH : list attr := %s.\nDefinition LSCH : list attr := %s.\n' % (SCHEMA, LIFE_SCHEMA))
 
 
 def run_bools(ctx, exprs, chunk=450):
@@ -244,13 +247,37 @@ def correspondence(ctx):
         disagreements.append({'what': 'model and real sessions differ (final row / outcomes / observed values / UPDATE statements)', 'input': c,
                               'impl': {'final': r['final'], 'status': r['status'], 'events': [e[:5] if e[0] != 'end' else e[:3] for e in r['events']]},
                               'coq_case': exprs[i][:1500]})
+    # model Life: multi-transaction session, get_for_update, created objects
+    lcases = life_cases(ctx)
+    dist['life_cases'] = len(lcases); dist['life_optimistic_errors'] = 0; dist['life_exempt_updates'] = 0
+    try:
+        lres = run_life(lcases)
+    except DriverProblem as e:
+        lres = []; disagreements.append({'what': 'multi-transaction session did not finish (deadlock or driver error)', 'input': e.case, 'impl': str(e.what)[:1500]})
+    lexprs, lmeta = [], []
+    for c, r in zip(lcases, lres):
+        if r['other'] or r['lock_left_held']:
+            disagreements.append({'what': 'unexpected exception or lock left held (multi-transaction session)', 'input': c, 'impl': [r['other'], r['lock_left_held']]}); continue
+        dist['life_optimistic_errors'] += sum(1 for e in r['events'] if e[0] == 'fail' and e[1] == 1)
+        dist['life_exempt_updates'] += sum(1 for e in r['events'] if e[0] == 'upd' and not e[2])
+        try:
+            lexprs.append(life_coq_case(c, r)); lmeta.append((c, r))
+        except Unmodelled as e:
+            disagreements.append({'what': 'implementation output outside the model: %s' % e, 'input': c, 'impl': r['events']})
+        if any(e[0] == 'X' for e in c['evs']) and any(e[0] == 'upd' for e in r['events']): nontriv.add(json.dumps(c))
+    for i in (run_bools(ctx, lexprs) if lexprs else [])[:10]:
+        c, r = lmeta[i]
+        disagreements.append({'what': 'model Life and the real multi-transaction session differ (final row / lock / observations / INSERT-UPDATE statements / error)',
+                              'input': c, 'impl': {'final': r['final'], 'locked': r['locked'], 'events': [e[:4] if e[0] == 'upd' else e[:2] if e[0] == 'fail' else e for e in r['events']]},
+                              'coq_case': lexprs[i][:1500]})
     fu = for_update_check()
     dist['for_update_checks'] = fu['checks']
     disagreements += fu['disagreements']
     for c, r in list(zip(cases, results))[:1] + [(c, r) for c, r in zip(cases, results) if r['status'] == ['C', 1]][:2]:
         samples.append({'db0': c['db0'], 'progs': c['progs'], 'sched': c['sched'], 'status': r['status'], 'final': r['final'],
                         'events': [e[:5] if e[0] != 'end' else e[:3] for e in r['events']]})
-    return Corr(cases=len(exprs) + fu['checks'], nontrivial=len(nontriv), disagreements=disagreements, samples=samples, distribution=dist,
+    if lres: samples.append({'life_case': lcases[len(lcases) // 2], 'events': lres[len(lcases) // 2]['events']})
+    return Corr(cases=len(exprs) + len(lexprs) + fu['checks'], nontrivial=len(nontriv), disagreements=disagreements, samples=samples, distribution=dist,
                 note='every case: one Coq bool = outcome_eqb (model outcome of (row, programs, schedule)) (real outcome), evaluated by vm_compute')
 
 
@@ -262,6 +289,128 @@ def for_update_check():
         if t['got'] != t['want']:
             dis.append({'what': 'for_update exemption: %s' % t['name'], 'input': t['name'], 'impl': t['got'], 'model': t['want']})
     return {'checks': len(out['tests']), 'disagreements': dis}
+
+
+# ------------------------------------------------------------------------------------------------ model Life: several transactions in one session
+# one db_session with explicit commits in the middle, get_for_update and created objects; other sessions' commits inserted at every position
+
+LIFE_PROTECTED = [True, True, False]
+FU, LK = ['forupd'], ['K']
+def CR(vs): return ['create', vs]
+def X(a, v): return ['X', a, v]
+LIFE_PROGS = [
+    ([10, 20, 30], [FU, R(0), LK, WP(0, 0, -5), LK]),
+    (None,         [CR([100, 2, 3]), LK, R(0), WP(0, 0, -5), LK]),
+    ([10, 20, 30], [R(0), LK, WP(0, 0, 1), LK]),
+    ([10, 20, 30], [FU, R(0), W(0, 5), LK, R(0), WP(0, 0, 1), LK]),
+    ([10, 20, 30], [R(0), W(1, 3), FU, R(0), LK]),
+    ([10, 20, 30], [R(0), FU, WP(0, 0, 1), LK, W(1, 1), LK]),
+    (None,         [CR([1, 2, 3]), R(0), W(0, 9), LK, W(1, 4), LK]),
+    ([10, 20, 30], [FU, R(2), LK, W(0, 1), LK]),
+    ([10, 20, 30], [R(0), LK, FU, WP(1, 0, 1), LK]),
+    (None,         [CR([1, 2, 3]), LK, FU, W(0, 4), LK, R(1), W(0, 5), LK]),
+    ([10, None, 30], [FU, R(1), LK, W(0, 2), LK]),
+]
+LIFE_ACTS = [X(0, 70), X(1, 71), X(2, 72), X(1, None)]
+
+
+def life_cases(ctx, deep=False):
+    cases, seen = [], set()
+    for n, (d0, prog) in enumerate(LIFE_PROGS):
+        for m in (0, 1) + ((2,) if (ctx.thorough or deep or n in (0, 1)) else ()):
+            for seq in itertools.product(range(len(LIFE_ACTS)), repeat=m):
+                for pos in itertools.combinations_with_replacement(range(len(prog) + 1), m):
+                    evs, k = [], 0
+                    for i in range(len(prog) + 1):
+                        while k < m and pos[k] == i:
+                            evs.append(LIFE_ACTS[seq[k]]); k += 1
+                        if i < len(prog): evs.append(prog[i])
+                    c = {'life': True, 'd0': d0, 'evs': evs}
+                    key = json.dumps(c)
+                    if key not in seen:
+                        seen.add(key); cases.append(c)
+    return cases
+
+
+_life_cache = {}
+
+def run_life(cases):
+    todo = [c for c in cases if json.dumps(c) not in _life_cache]
+    if todo:
+        out = vlib.run_impl('c20_life_driver.py', {'cases': todo}, timeout=1500)
+        for c, r in zip(todo, out['results']):
+            _life_cache[json.dumps(c)] = r
+        if out.get('error') or out.get('stuck'):
+            k = len(out['results'])
+            raise DriverProblem(out.get('stuck') or out.get('error'), todo[k] if k < len(todo) else None)
+    return [_life_cache[json.dumps(c)] for c in cases]
+
+
+def clev(e):
+    if e[0] == 'create': return '(LCreate [%s])' % '; '.join(vlib.cz(v) for v in e[1])
+    if e[0] == 'forupd': return 'LForUpd'
+    if e[0] == 'K': return 'LCommit'
+    if e[0] == 'R': return '(LRead %d)' % e[1]
+    if e[0] == 'X': return '(LExt %d %s)' % (e[1], cval(e[2]))
+    if e[2][0] == 'C': return '(LWrite %d (EConst %s))' % (e[1], cval(e[2][1]))
+    return '(LWrite %d (EPlus %d %s))' % (e[1], e[2][1], vlib.cz(e[2][2]))
+
+def cltev(e):
+    if e[0] == 'obs': return '(LObs %d %s)' % (e[1], cval(e[2]))
+    if e[0] == 'ins': return '(LInsert %s)' % clist(e[1], cval)
+    if e[0] == 'upd':
+        if any(v == '=NULL' for _, v in e[2]): raise Unmodelled('UPDATE compares a column with `= NULL`')
+        return '(LUpdate %s %s %s)' % (cpairs(e[1]), cpairs(e[2]), vlib.cbool(e[3]))
+    if e[0] == 'fail': return '(LFail %d)' % e[1]
+    raise Unmodelled(str(e))
+
+def life_coq_case(c, r):
+    d0 = 'None' if c['d0'] is None else '(Some %s)' % clist(c['d0'], cval)
+    fin = 'None' if r['final'] is None else '(Some %s)' % clist(r['final'], cval)
+    evs = clist(r['events'], cltev) if r['events'] else '(@nil ltev)'
+    return 'loutcome_eqb (loutcome 3 LSCH %s %s) (%s, %s, %s)' % (d0, clist(c['evs'], clev), fin, vlib.cbool(r['locked']), evs)
+
+
+def life_oracle(c, r):
+    """C20 on one multi-transaction session, from the real events only: an UPDATE that is applied must find every protected
+    attribute the session has read from the database (and not overwritten itself since) unchanged; a failed step commits nothing."""
+    bad = []
+    kind = 'created' if any(e[0] == 'create' for e in c['evs']) else 'for-update' if any(e[0] == 'forupd' for e in c['evs']) else 'plain'
+    known, pending = {}, set()
+    evs, pos = list(r['events']), 0
+    def failed_here():
+        nonlocal pos
+        if pos < len(evs) and evs[pos][0] == 'fail':
+            x = evs[pos]
+            if x[2] != x[3]: bad.append(('life:%s:failed-step-committed' % kind, 'the step failed but the committed row changed %r -> %r' % (x[2], x[3])))
+            pos = len(evs) + 1
+            return True
+        return False
+    for e in c['evs']:
+        if e[0] == 'X': continue
+        if pos > len(evs): break
+        if e[0] == 'R' or (e[0] == 'W' and e[2][0] == 'P'):
+            src = e[1] if e[0] == 'R' else e[2][1]
+            if pos < len(evs) and evs[pos][0] == 'obs' and evs[pos][1] == src:
+                if src not in pending: known[src] = evs[pos][2]
+                pos += 1
+        if e[0] == 'W':
+            if failed_here(): break
+            known.pop(e[1], None); pending.add(e[1])
+        if e[0] in ('K', 'forupd'):
+            while pos < len(evs) and evs[pos][0] in ('ins', 'upd'):
+                x = evs[pos]; pos += 1
+                if x[0] == 'upd' and x[3]:
+                    before = x[4]
+                    stale = sorted(a for a, v in known.items() if LIFE_PROTECTED[a] and before is not None and before[a] != v)
+                    if stale:
+                        bad.append(('life:%s:lost-update-in-later-transaction' % kind,
+                                    'the session had read %r, another session then committed (row %r), and the session\'s UPDATE SET %r WHERE %r was applied '
+                                    'without OptimisticCheckError (first transaction of the session: %s)' % ({a: known[a] for a in stale}, before, x[1], x[2], kind)))
+                    pending.clear()
+                if x[0] == 'ins': pending.clear()
+        if failed_here(): break
+    return bad
 
 
 # ------------------------------------------------------------------------------------------------ search (property oracle)
@@ -356,8 +505,18 @@ def search(ctx, deep):
                 failures.append(Failure(key, '%s  [row %r, programs %r, schedule %r]' % (what, c['db0'], c['progs'], c['sched']), {'case': c}))
             seen_keys[key] += 1
         if nontrivial_case(r): nontriv.add(case_key(c))
+    lcases = life_cases(ctx, deep)
+    dist['life_cases'] = len(lcases)
+    try:
+        for c, r in zip(lcases, run_life(lcases)):
+            for key, what in life_oracle(c, r):
+                if seen_keys.setdefault(key, 0) < 1:
+                    failures.append(Failure(key, '%s  [initial row %r, events %r]' % (what, c['d0'], c['evs']), {'case': c}))
+                seen_keys[key] += 1
+    except DriverProblem as e:
+        failures.append(Failure('deadlock-or-driver-error', 'multi-transaction session did not finish: %s' % str(e.what)[:500], {'case': e.case}))
     dist['failing_cases_by_key'] = seen_keys
-    return Search(evaluations=len(cases), failures=failures, nontrivial=0 if dist['reused_from_correspondence'] == len(cases) else len(nontriv),
+    return Search(evaluations=len(cases) + len(lcases), failures=failures, nontrivial=0 if dist['reused_from_correspondence'] == len(cases) else len(nontriv),
                   distribution=dist, exhaustive=True,
                   samples=[{'oracle': 'committed => every protected attribute read still had the value read; failed => row untouched; final row = commits in order'}])
 
@@ -365,6 +524,14 @@ def search(ctx, deep):
 def replay(ctx, data):
     c = data['case']
     if c is None: return None
+    if c.get('life'):
+        _life_cache.pop(json.dumps(c), None)
+        try:
+            r = run_life([c])[0]
+        except DriverProblem as e:
+            return Failure('deadlock-or-driver-error', str(e.what)[:500], data)
+        bad = life_oracle(c, r)
+        return Failure(bad[0][0], bad[0][1], data) if bad else None
     _cache.pop(case_key(c), None)
     try:
         r = run_real([c])[0]
@@ -378,11 +545,11 @@ def replay(ctx, data):
 LEVEL_TEXT = ('Machine-checked proof (Coq 8.16.1) over an executable model of Pony\'s optimistic concurrency control (read/write bits, optimistic '
               'WHERE criteria, rowcount check, commit/rollback) for one shared object: for all programs of reads/writes/commit, any number of sessions '
               'and ALL interleavings (induction over the schedule), a session\'s update is applied iff every protected attribute it observed from '
-              'the database still holds the observed value; otherwise it ends in OptimisticCheckError and the row is untouched; and (C20_serial) a successful commit of a session whose reads are all protected leaves the row exactly as if that session had run alone at commit time. Every run replays '
+              'the database still holds the observed value; otherwise it ends in OptimisticCheckError and the row is untouched; and (C20_serial) a successful commit of a session whose reads are all protected leaves the row exactly as if that session had run alone at commit time; (model Life) for one session running several transactions with explicit commits, get_for_update and created objects, against arbitrary commits of other sessions: the for_update exemption is alive only while the row is uninserted or the session holds the write lock, and every UPDATE that is applied - with criteria or exempt - finds the protected attributes read unchanged. Every run replays '
               'all interleavings of pairs (and seeded triples) of short programs on real threaded db_sessions over a SQLite file and compares rows, '
               'outcomes, observed values and captured UPDATE statements with the model by vm_compute.')
-LEVEL_NOTE = ('Partial: single shared row (multi-object atomicity is the database transaction, C17); flushes only at commit; for_update exemption '
-              'tested directly, not in the schedule model; serial equivalence is proved for sessions whose reads are all protected (optimistic opt-outs are the stated exception); PostgreSQL not executed. '
+LEVEL_NOTE = ('Partial: single shared row (multi-object atomicity is the database transaction, C17); in the n-session schedule model flushes happen only at commit; '
+              'multi-transaction sessions, get_for_update and created objects are modelled for one session against arbitrary external commits (model Life), not inside the n-session schedule model; serial equivalence is proved for sessions whose reads are all protected (optimistic opt-outs are the stated exception); PostgreSQL not executed. '
               'Trusted: Coq kernel + vm_compute; the thread scheduler harness and SQL capture; SQLite statement atomicity.')
 TECHNIQUE = 'Coq invariant proof over all schedules of an executable model; vm_compute correspondence with real threaded sessions on every enumerated interleaving; property oracle search'
 DESIGN_REF = 'DESIGN.md section 5, C20'
